@@ -38,6 +38,17 @@ def _form(val, k, puan):
 def _valid(m):
     return (not proj.is_var(m)) and m.errors() == []
 
+def _provoke(m, k):
+    """a rejected call first (invalid value type / lower above upper: the library raises ValueError): what it leaves behind must
+    not change later answers"""
+    lv = proj.leaves(m)
+    if not lv: return
+    bad = [{lv[-1].id: 1.5}, {lv[0].id: (1, 0)}, {lv[len(lv) // 2].id: "x"}][k % 3]
+    for call in (m.evaluate, m.evaluate_propositions, m.assume):
+        try: call(dict(bad))
+        except (KeyboardInterrupt, SystemExit): raise
+        except BaseException: pass
+
 def _mk(case):
     _FORCE_FORM[0] = case.get("form")
     if case.get("share"):
@@ -64,6 +75,7 @@ def drv_evaluate(case):
     rng = random.Random(case.get("seed", 0))
     pm = proj.node(m, tok)
     comps = [c.id for c in _compounds(m)]
+    if case.get("k", 0) % 3 == 1 or case.get("src") == "handmade": _provoke(m, case.get("k", 0))
     points = []
     shared = {}                                 # ONE dictionary object, updated in place between calls on the same model
     other, other_vals = None, {}
@@ -262,6 +274,7 @@ def drv_partial(case):
     if _box(lv) is None: return []
     pm = proj.node(m, tok)
     rng = random.Random(case.get("seed", 0))
+    if case.get("k", 0) % 3 == 1 or case.get("src") == "handmade": _provoke(m, case.get("k", 0))
     combos = list(itertools.product(*[_subranges(v) for v in lv]))
     if len(combos) > case.get("max_interps", 40):
         combos = rng.sample(combos, case.get("max_interps", 40))
@@ -379,11 +392,16 @@ def drv_reduce(case):
     for k, D in enumerate(_dict_options(m0, rng, case.get("max_ids", 2), case.get("n_dicts", 12), compound_opts=((0, 0), (1, 1)))):
         tok = proj.Tok()
         Df = {i: _as_form(o, k + j, puan) for j, (i, o) in enumerate(D.items())}
-        m = _mk(case).assume(dict(Df)) if D else _mk(case)
+        src = _mk(case)
+        if k % 3 == 1:
+            src.reduce()                       # the source has been reduced before (the result is not used)
+            if k % 2: _provoke(src, k)
+        m = src.assume(dict(Df)) if D else src
         if proj.is_var(m):
             continue                           # the whole model became a constant variable: reduce() is the identity
         pm = proj.node(m, tok)
         r = m.reduce()
+        if k % 3 == 2: r = m.reduce()          # ... and a second reduce() of the same object answers like the first
         free = [v for v in proj.leaves(m) if proj.I(v.bounds.lower) != proj.I(v.bounds.upper)]
         fb = _box(free)
         pts = []
@@ -616,6 +634,37 @@ def drv_b64(case):
             break
     return out
 
+def drv_b64_xproc(case):
+    """pack here, unpack in ANOTHER interpreter (other PYTHONHASHSEED, as a service that receives the string would): what arrives is
+    the same model - structure, listing, text form, validation, and it still de-duplicates against freshly built equal objects"""
+    import os, subprocess, sys
+    from . import xproc
+    puan, pg = _mods()
+    items, sent = [], []
+    for r in case["recipes"]:
+        m = B.build(r)
+        if proj.is_var(m) or m.errors() != []: continue
+        hash(m); set(m.flatten()); m.to_text()                  # queries that hash the model and its parts before it is packed
+        tok = proj.Tok()
+        items.append((r, xproc.observe(m, r, proj, B, pg, tok)))
+        sent.append(json.dumps({"recipe": r, "s": m.to_b64()}))
+    if not items: return []
+    env = dict(os.environ, PYTHONHASHSEED=str(case.get("other_seed", 1)))
+    p = subprocess.run([sys.executable, "-m", "harness.xproc"], input="\n".join(sent) + "\n", capture_output=True, text=True, env=env,
+                       cwd=os.path.dirname(os.path.dirname(os.path.abspath(__file__))), timeout=600)
+    lines = [l for l in p.stdout.splitlines() if l.strip()]
+    if p.returncode != 0 or len(lines) != len(items):
+        return [{"op": "exc", "exc": "ChildFailed", "msg": (p.stderr or "")[-300:], "where": "harness.xproc"}]
+    out = []
+    for (r, here), ln in zip(items, lines):
+        there = json.loads(ln)
+        if "raised" in there:
+            out.append({"op": "exc", "exc": there["raised"], "msg": there.get("msg", ""), "where": "from_b64 in another interpreter"}); continue
+        out.append({"op": "b64", "model": here["node"], "back": there["node"], "shorts_before": [], "shorts_after": [],
+                    "q_before": {k: here[k] for k in ("flat", "text", "errors", "mix")}, "q_after": {k: there[k] for k in ("flat", "text", "errors", "mix")},
+                    "again": here["node"], "same_string": True, "xproc": True})
+    return out
+
 # ============================================================================= polyhedra (C11, C12, C19, C20)
 def _poly(case):
     """fresh ge_polyhedron for case = {"rows": [[b, a1..an], ...], "bounds": [[lo,hi],...]} (+ optional ids / index ids)"""
@@ -667,6 +716,14 @@ def drv_poly_reduce(case):
     # the public sub-operations, through the class and through the module level aliases
     Q = _poly(case)
     use_alias = bool(case.get("k", 0) % 2)
+    if case.get("k", 0) % 4 >= 2 and base["cols"] and base["rows"]:
+        # queries and re-wrappings that must leave the polyhedron (its variables, its index) as it is
+        try:
+            Q.separable(numpy.zeros(len(base["cols"]), dtype=numpy.int64)); Q.ineqs_satisfied(numpy.zeros(len(base["cols"]), dtype=numpy.int64))
+            Q.neglectable_columns(numpy.array([[1] + [0] * (len(base["cols"]) - 1)], dtype=numpy.int64))
+            pnd.ge_polyhedron(Q); pnd.ge_polyhedron(Q, variables=[puan.variable("o%d" % j, (-7, 7)) for j in range(len(base["cols"]) + 1)])
+        except Exception:
+            pass
     r1 = pnd.reducable_rows(Q) if use_alias else Q.reducable_rows()
     c1 = pnd.reducable_columns_approx(Q) if use_alias else Q.reducable_columns_approx()
     fx, vl = _cv(c1)
@@ -711,6 +768,12 @@ def drv_tighten(case):
     out = []
     calls = ["tight", "rowb", "colb", "ncomb"]
     k = case.get("k", 0)
+    if k % 5 == 2 and base["cols"] and not case.get("default_vars"):
+        import puan, puan.ndarray as pnd
+        try:
+            pnd.ge_polyhedron(P); pnd.ge_polyhedron(P, variables=[puan.variable("o%d" % j, (-7, 7)) for j in range(len(base["cols"]) + 1)])
+        except Exception:
+            pass
     order = calls[k % 4:] + calls[:k % 4]
     for rnd in range(2):                      # the SAME object is queried twice, in a rotated order
         res = {}
@@ -728,7 +791,7 @@ def drv_tighten(case):
             for v in list(P.variables)[1:]:
                 if int(v.bounds.upper) > int(v.bounds.lower):
                     try:
-                        if k % 2: v.bounds.upper = int(v.bounds.upper) - 1
+                        if k % 2 or int(v.bounds.upper) >= 32767: v.bounds.upper = int(v.bounds.upper) - 1     # (the library's integer range ends at 32767)
                         else: v.bounds.upper = int(v.bounds.upper) + 1
                     except Exception:
                         break
@@ -771,10 +834,26 @@ def drv_classify(case):
             cv[j] = base["cols"][j]["hi"]
             try:
                 P.reduce_columns(cv); P.reduce_rows(numpy.zeros(len(base["rows"])))
+                P.neglectable_columns(numpy.array([[1] + [0] * (len(base["cols"]) - 1)], dtype=numpy.int64))
+                P.separable(numpy.zeros(len(base["cols"]), dtype=numpy.int64)); P.column_bounds(); P.row_bounds()
             except Exception:
                 pass
     for k, pts in enumerate(case["points"]):
         classify(P, base, pts, k + case.get("k", 0))
+    if case.get("k", 0) % 4 == 0 and base["cols"]:
+        # empty groups of points: nothing is separated, nothing is listed
+        n = len(base["cols"])
+        for shape, pts in (((0, n), []), ((2, 0, n), [[], []])):
+            arr = numpy.zeros(shape, dtype=numpy.int64)
+            try:
+                res = {"sat": lst(P.ineqs_satisfied(arr)), "sep": lst(P.separable(arr)), "rowsep": lst(P.ineq_separate_points(arr))}
+            except (KeyboardInterrupt, SystemExit): raise
+            except BaseException as ex:
+                out.append({"op": "exc", "exc": type(ex).__name__, "msg": str(ex)[:150], "where": "classification of an empty group of points"}); continue
+            if len(shape) == 3:
+                res["sat"] = [x if isinstance(x, list) else [] for x in (res["sat"] or [[], []])]; res["sep"] = [x if isinstance(x, list) else [] for x in (res["sep"] or [[], []])]
+            out.append({"op": "classify", "rows": base["rows"], "cols": base["cols"], "ndim": len(shape), "points": pts,
+                        "sat": res["sat"], "sep": res["sep"], "rowsep": res["rowsep"], "dtype": "int64", "empty": True})
     # polyhedra DERIVED from an already queried one (numpy views / arithmetic / edited copies) must answer for their own rows
     if len(base["rows"]) >= 1 and case["points"]:
         derived = [P[::-1], P * 2, P.copy()]
@@ -819,6 +898,14 @@ def drv_bridge(case):
         r = [[1, 0] if (isinstance(x, float) and x != x) else [0, proj.I(x)] for x in numpy.asarray(res).tolist()]
         out.append({"op": "construct", "vars": pv, "dict": [[tok(k), proj.I(v)] for k, v in d.items()], "kind": {"fn_float": "fn", "lower32": "lower"}.get(kind, kind),
                     "fnvals": [[tok(k), v] for k, v in fn.items()], "res": r, "dtype": str(numpy.asarray(res).dtype)})
+    # the SAME dictionary object passed to several construct() calls (other dtype, other default): it is only read
+    dd = dict(d)
+    arr.construct(dd, dtype=numpy.float64); arr.construct(dd, default_value=lambda v: 77)
+    res_dd = arr.construct(dd)
+    out.append({"op": "construct", "vars": pv, "dict": [[tok(k), proj.I(v)] for k, v in d.items()], "kind": "lower", "fnvals": [],
+                "res": [[0, proj.I(x)] for x in numpy.asarray(res_dd).tolist()], "dtype": str(numpy.asarray(res_dd).dtype), "same_dict": True})
+    out.append({"op": "construct", "vars": pv, "dict": [[tok(k), proj.I(v)] for k, v in dd.items()], "kind": "lower", "fnvals": [],
+                "res": [[0, proj.I(x)] for x in numpy.asarray(arr.construct(dict(d))).tolist()], "dtype": "int64", "dict_after": True})
     out.append({"op": "partition", "vars": pv, "bool_idx": [proj.I(x) for x in numpy.asarray(arr.boolean_variable_indices).tolist()],
                 "int_idx": [proj.I(x) for x in numpy.asarray(arr.integer_variable_indices).tolist()]})
     # the same two sets asked for with the plain-string / numpy-string spelling of the dtype (puan.Dtype is a str enum)
@@ -842,6 +929,11 @@ def drv_bridge(case):
     tuple_first = bool(lst) and isinstance(lst[0], tuple)      # boolean from_list documents a tuple as a nested row, integer from_list does not
     b1 = pnd.boolean_ndarray.from_list(lst, ctx) if (lst and not tuple_first) else None
     i1 = pnd.integer_ndarray.from_list(lst, ctx) if lst else None
+    if lst and not tuple_first and len(case["vars"]) % 2:
+        # the list given as variable OBJECTS (declared with other bounds than the context's variables: a variable is its id)
+        lobj = [puan.variable(x, (-3, 9)) for x in lst]
+        b1 = pnd.boolean_ndarray.from_list(lobj, list(vs))
+        i1 = pnd.integer_ndarray.from_list(lobj, list(vs))
     ev = {"op": "lists", "vars": pv, "ctx": [tok(x) for x in ctx], "lst": [tok(x) for x in lst],
           "bool_ok": not tuple_first,
           "bool_arr": [proj.I(x) for x in numpy.asarray(b1).tolist()] if b1 is not None else [0] * len(ctx),
@@ -904,7 +996,10 @@ def drv_compress(case):
     for m in METHODS[rot:] + METHODS[:rot]:
         if big and m not in ("prio", "rank", "shadow"):
             continue                      # these return input values, which TLC (32-bit integers) cannot hold
-        r = arr.ndint_compress(method=m, axis=axis) if axis is not None else arr.ndint_compress(method=m)
+        if rot % 2:
+            r = pnd.ndint_compress(arr, method=m, axis=axis) if axis is not None else pnd.ndint_compress(arr, method=m)      # module level alias
+        else:
+            r = arr.ndint_compress(method=m, axis=axis) if axis is not None else arr.ndint_compress(method=m)
         runs.append({"m": m, "r": _nest(numpy.asarray(r).tolist())})
     xs = x
     if kind == "flat":
@@ -1009,20 +1104,24 @@ def drv_solve(case):
     out = []
     for objs in case["objectives_list"]:
         for mode in case.get("solvers", ["capture", "exact", "none", "mixed"]):
-            for incl in (False, True):
-                direct = proj.cfgpoly(m.to_ge_polyhedron(active=True), tok)
+            for incl, red in ((False, False), (True, False)) + (((True, True), (False, True)) if mode == "capture" else ()):
+                # red: try_reduce_before=True - the solver gets the polyhedron reduced by the encoder; ids and entries must still be aligned
+                try:
+                    direct = proj.cfgpoly(m.to_ge_polyhedron(active=True, reduced=red), tok)
+                except BaseException:
+                    continue
                 if mode == "exact" and _box_of_cols(direct["cols"]) > (1 << 12): continue
                 s = solvers.Capture(mode)
                 exc, reported = "", []
                 try:
-                    res = list(m.solve([dict(o) for o in objs], solver=s, include_virtual_variables=incl))
+                    res = list(m.solve([dict(o) for o in objs], solver=s, include_virtual_variables=incl, try_reduce_before=red))
                     reported = [[[tok(k), proj.I(v)] for k, v in r[0].items()] for r in res]
                 except Exception as ex:
                     exc = type(ex).__name__
                 if not s.calls:
                     out.append({"op": "solve", "model": pm, "exc": exc or "solver_not_called", "received": {"rows": [], "cols": [], "objectives": []},
                                 "direct": {"rows": [], "cols": []}, "objectives": [], "returned": [], "reported": [], "include_virtual": incl,
-                                "solver": mode, "enum": False})
+                                "solver": mode, "enum": False, "reduced": red})
                     continue
                 rc = _recv(s.calls[0], tok)
                 returned = []
@@ -1031,7 +1130,7 @@ def drv_solve(case):
                 out.append({"op": "solve", "model": pm, "objectives": [[[tok(k), proj.I(v)] for k, v in o.items()] for o in objs],
                             "solver": mode, "include_virtual": incl, "received": {"rows": rc["rows"], "cols": rc["cols"], "objectives": rc["objectives"]},
                             "direct": {"rows": direct["rows"], "cols": direct["cols"]}, "returned": returned, "reported": reported, "exc": exc,
-                            "enum": _box_of_cols(rc["cols"]) <= (1 << 10), "after": proj.node(m, tok)})
+                            "enum": (not red) and _box_of_cols(rc["cols"]) <= (1 << 10), "after": proj.node(m, tok), "reduced": red})
     return out
 
 # ============================================================================= call histories (C09, C18)
